@@ -40,6 +40,7 @@ THEOREMS = [
     'CpProofs.C15.C15_cc_no_cache',
     'CpProofs.C15.C15_uriKey_collision',
     'CpProofs.C15.C15_uriKey_injective_partial',
+    'CpProofs.C15.C15_uriKey_injective_escaped',
     'CpProofs.C15.C15_sweep_by_names_leaks',
     'CpProofs.C15.C15_sweep_by_names_undercounts',
     'CpProofs.C15.C15_size_bounds',
@@ -91,42 +92,72 @@ THEOREMS = [
 ]
 LEVEL = 'proof'
 TECHNIQUE = ('Lean 4 proof: store invariant by induction over all request histories of a transcription of '
-             'MemoryCache + caching.get/tee_output; model tied to the real tool by a differential run under a '
-             'logical clock with a gated expiry thread')
+             'MemoryCache + caching.get/tee_output (with header tokenisation, validate_since and the expires tool), and '
+             'a heap invariant over all schedules of an interleaving model at shared-access granularity; both models '
+             'tied to the real tool by differential runs (logical clock, gated expiry thread, deterministic scheduler '
+             'over instrumented dict/Event proxies with per-step snapshot comparison)')
 LEVEL_TEXT = ('Proved in Lean for every configuration and every history (any number of requests, clock advances and expiry '
               'sweeps) of the transcribed MemoryCache + caching.get/tee_output/_wrapper: a response served from the cache '
-              'is the output of an earlier handler run (unique generation number) that ran to completion (handler and body '
-              'iterator did not raise, a streamed body was drained by its client), for the same store key, agrees with it '
-              'on every selecting header, is no older in whole seconds than min(delay, request max-age), carries Age = '
-              'elapsed whole seconds, was storable (no request/response no-store, no Pragma: no-cache, non-empty, below '
-              'maxobj_size); POST/PUT/DELETE (live table) and Pragma/Cache-Control: no-cache reach the handler and the next '
-              'request for the URI misses; cursize accounting bounds. Partial: agreement on every header of the response\'s '
-              'own Vary needs the hypothesis that a URI keeps its Vary list (full statement proved false, F16b); the store '
-              'key path+?+query is injective only for paths without "?" (collision proved, C15-N1); conditional '
-              'revalidation (validate_since), header tokenisation and thread interleavings are not in the model: the '
-              'anti-stampede placeholder is exercised on the real code with two gated request threads (oracle only).')
-LEVEL_NOTE = ('Trusted: Lean kernel (axioms propext, Classical.choice, Quot.sound only); the hand model '
-              'lean/CpModel/Cache.lean as validated on every run by the differential stream against the real tool '
-              '(in-process WSGI, logical clock substituted for caching.time/_cprequest.time, real expire_cache thread '
-              'driven one pass at a time); RE_HEADER_SPLIT/parse_header tokenisation and header-name case folding are '
-              'parameters; sequential requests per history (antistampede_timeout=None) in the differential stream.')
+              'is the output of an earlier handler run (unique generation number) that ran to completion, for the same '
+              'store key, agrees with it on every selecting header, is no older in whole seconds than min(delay, request '
+              'max-age), carries Age = elapsed whole seconds, was storable (no request/response no-store, no Pragma: '
+              'no-cache, non-empty, below maxobj_size); POST/PUT/DELETE (live table) and Pragma/Cache-Control: no-cache '
+              'reach the handler and the next request for the URI misses; cursize accounting bounds. '
+              'Header layer (all strings): RE_HEADER_SPLIT / parse_header / strip / key folding are transcribed; for '
+              'quote-free header values the element values are exactly the comma pieces cut at ";" and stripped, so a '
+              'no-cache / no-store element in any white-space / parameter / ordering arrangement has its effect, header '
+              'names in Vary are case-insensitive; a 304 / 412 answered from the cache (validate_since) comes from a hit '
+              'whose producer is found in the history, with If-Modified-Since equal to the stored Last-Modified on GET/HEAD; '
+              'the expires tool (exhaustive differential over all header-presence combinations) and that its '
+              'Pragma: no-cache keeps the response out of the cache. '
+              'Interleavings (any number of request threads + the expiry thread, one dict/Event/list/cursize access per '
+              'step, every schedule, timeouts at any point): every value a thread obtains from a slot or from an Event is a '
+              'logged, storable handler output for its own resource and variant key (genuine, fresh, Age); an Event that '
+              'is set carries its result (no half-stored variant); a waiter that wakes up is handed that value and becomes '
+              'the producer only after a timeout; cursize < maxsize (or <= 0) always; the sweep only removes slots. '
+              'Proved FALSE with witness schedules replayed on the real threads: at most one producer per slot without a '
+              'timeout (two threads read the empty slot before either writes its Event), 0 <= cursize (lost update), '
+              'every stored response is eventually swept (put racing the sweep appends to an orphaned bucket), a POST '
+              'stops an in-flight miss from being stored, Age >= 0. '
+              'Partial: agreement on every header of the response\'s own Vary needs the hypothesis that a URI keeps its '
+              'Vary list (full statement proved false, F16b); the store key path+?+query is injective only for paths '
+              'without "?" (collision proved, C15-N1; the repaired key is proved injective and the model follows the '
+              'live module through a probed flag); header values containing double quotes are covered by the '
+              'correspondence run only; non-ASCII header names, RFC 2047 encoded words and normalize_path are parameters.')
+LEVEL_NOTE = ('Trusted: Lean kernel (axioms propext, Classical.choice, Quot.sound only); the hand models '
+              'lean/CpModel/Cache.lean, CacheHdr.lean, CacheConc.lean as validated on every run: sequential histories with '
+              'raw header strings against the real tool (in-process WSGI, logical clock substituted for '
+              'caching.time/_cprequest.time, real expire_cache thread driven one pass at a time), every header-layer '
+              'function against the live function, interleaving scenarios with real threads whose every shared-state '
+              'access (instrumented dict / Event / list / cursize proxies, not source lines) is one scheduler step, the '
+              'whole shared state compared with the model after every step; the two cache models are cross-checked '
+              'against each other on every sequential history.')
 TRUSTED_BASE = [
-    'header tokenisation (RE_HEADER_SPLIT / parse_header) and header-name case folding are parameters: the '
-    'generator emits plain comma-separated tokens and canonical header names',
-    'threading.Event / the GIL for the anti-stampede placeholder; the expiry thread is driven one pass at a time '
-    'through the gate in the fake time module',
+    'the instrumented proxies of harness/c15_sched.py (a re-hosted copy of the live AntiStampedeCache on a hooked dict '
+    'base, SharedDict/SharedList/SharedEvent, the cursize property) intercept every access the code under test makes '
+    'to its shared objects; CPython executes one such access atomically (GIL)',
+    'header names are ASCII; request header values carry no RFC 2047 encoded word; cherrypy.url path normalisation '
+    'and trailing-slash adaptation are not modelled (the generator uses normalised paths)',
+    'the expiry thread is driven through the fake time module (one pass per sweep op, or one access per step)',
 ]
 ASSUMPTIONS = [
-    'the clock is monotone; a request happens at one instant (response.time)',
-    'tools.caching.antistampede_timeout = None in the differential stream (no real waiting); requests of one '
-    'history are sequential',
+    'the clock is monotone; a request\'s response.time is taken when it begins',
+    'tools.caching.antistampede_timeout = None in the sequential differential stream; in interleaving scenarios an '
+    'Event.wait returns when the event is set or when the schedule lets the timeout elapse',
+    'the process-wide cache object exists before requests run concurrently (created by a first request)',
 ]
-RULE = ('random request histories (3..60 ops) over 1-4 URLs x query strings x {GET,HEAD,POST,PUT,DELETE} x handler '
-        'outcomes (bytes / chunk generator buffered or streamed, raising at chunk 0-2, exception or HTTPError before any '
-        'body, client abandoning a stream, encode tool on/off) x 0-3 '
-        'Vary headers with values permuted across headers x Cache-Control/Pragma directives x clock steps placed on '
-        'the delay / max-age boundaries (quarter seconds) x expiry sweeps x size limits; non-trivial = at least one '
-        'response was served from the cache; distinct = distinct driver line')
+RULE = ('(1) random request histories (3..60 ops) over 1-4 URLs (incl. decoded paths containing ? and %) x query strings '
+        'x {GET,HEAD,POST,PUT,DELETE,PATCH,OPTIONS} x handler outcomes (bytes / chunk generator buffered or streamed, '
+        'raising at chunk 0-2, exception or HTTPError before any body, client abandoning a stream, encode tool on/off, '
+        'expires tool on/off) x 0-3 Vary headers with values permuted across headers x Cache-Control / Pragma / Vary '
+        'in their wire spellings (white space of every kind, empty elements, parameters, quoted strings with commas, '
+        'case variants, duplicates) x Last-Modified / If-Modified-Since / If-Unmodified-Since x clock steps placed on '
+        'the delay / max-age boundaries (quarter seconds) x expiry sweeps x size limits; (2) interleaving scenarios: '
+        '2-4 real request threads + the real expiry thread, schedules from targeted plans (stampede on one slot, two '
+        'threads parked at chosen accesses, sequential prefix + clock at the expiry boundary) continued by a sticky '
+        'random walk incl. timeouts, plus the witness schedules of the Lean theorems; (3) header-layer functions on '
+        'generated strings, the expires tool exhaustively; non-trivial = a response came from the cache / a thread '
+        'waited; distinct = distinct driver line')
 
 TPS = 4            # clock ticks per second (must match CpModel.Cache.tps)
 T0 = 1000000.0     # logical epoch
@@ -137,6 +168,18 @@ INVALIDATING = ('POST', 'PUT', 'DELETE')     # from the STATEMENT (the oracle's 
 # ----------------------------------------------------------------------------------------------
 # real-code runner
 # ----------------------------------------------------------------------------------------------
+class ExpiryThreadDied(Exception):
+    pass
+
+
+class ExpiryThreadStuck(Exception):
+    pass
+
+
+class RequestHung(BaseException):
+    """Raised by the watchdog inside a request of the code under test that does not come back."""
+
+
 class _FakeTime:
     """Stands in for the `time` module inside caching.py and _cprequest.py."""
 
@@ -178,9 +221,12 @@ class _FakeTime:
 
     def wait_parked(self, t, more_than=0):
         with self.cv:
-            if not self.cv.wait_for(lambda: self.parks.get(t, 0) > more_than, timeout=20):
-                raise common.HarnessError('expiry thread did not reach sleep()')
-            return self.parks[t]
+            for _ in range(200):
+                if self.cv.wait_for(lambda: self.parks.get(t, 0) > more_than, timeout=0.1):
+                    return self.parks[t]
+                if not t.is_alive():
+                    raise ExpiryThreadDied()      # the code under test ended its own thread: an observation
+            raise ExpiryThreadStuck()
 
     def one_pass(self, t):
         """Let thread t run exactly one iteration of its loop (from sleep() back to sleep())."""
@@ -196,7 +242,9 @@ class _FakeTime:
             self.cv.notify_all()
         t.join(20)
         if t.is_alive():
-            raise common.HarnessError('expiry thread did not exit')
+            # a pass of the code under test that never returns to sleep(): leave the daemon thread behind
+            self.retired.discard(t)
+            return
         with self.cv:
             self.retired.discard(t)
             self.parks.pop(t, None)
@@ -332,7 +380,14 @@ class _Env:
         def start_response(status, hs, exc_info=None):
             out['status'] = status
             out['headers'] = list(hs)
-        it = app(environ, start_response)
+        try:
+            it = app(environ, start_response)
+        except RequestHung:
+            raise
+        except Exception as e:           # the WSGI callable itself raised: no response at all
+            return 599, [('X-Exception', type(e).__name__)], b'', True, False
+        if 'status' not in out:
+            out['status'], out['headers'] = '598 start_response never called', []
         chunks, aborted, abandoned = [], False, False
         try:
             limit = abandon if (abandon is not None and self.tls.prod is not None) else None
@@ -478,6 +533,7 @@ def run_history(case):
     app = env.new_app(case['cfg'])
     env.tls.proto = 'HTTP/1.0' if (case['cfg'].get('expires') or {}).get('http10') else 'HTTP/1.1'
     obs, prods = [], {}
+    expiry = 'ok'
     try:
         for op in case['ops']:
             if op[0] == 'T':
@@ -485,21 +541,36 @@ def run_history(case):
                 obs.append(None)
             elif op[0] == 'S':
                 c = getattr(cp, '_cache', None)
-                if c is not None:
-                    env.clock.one_pass(c.expiration_thread)
+                if c is not None and expiry == 'ok':
+                    try:
+                        env.clock.one_pass(getattr(c, 'expiration_thread', None))
+                    except ExpiryThreadDied:
+                        expiry = 'dead'
+                    except (ExpiryThreadStuck, AttributeError, TypeError):
+                        expiry = 'stuck'
                 obs.append(None)
             else:
                 o = do_request(env, app, op, prods)
                 c = getattr(cp, '_cache', None)
-                if c is not None:
+                if c is not None and expiry == 'ok':
                     # the thread's first pass (started inside this request) must be over before the clock moves
-                    env.clock.wait_parked(c.expiration_thread)
+                    try:
+                        env.clock.wait_parked(getattr(c, 'expiration_thread', None))
+                    except ExpiryThreadDied:
+                        expiry = 'dead'
+                    except (ExpiryThreadStuck, AttributeError, TypeError):
+                        expiry = 'stuck'
                 obs.append(o)
         c = getattr(cp, '_cache', None)
         final = None
         if c is not None:
-            vals = sum(1 for uc in c.store.values() for v in uc.values() if isinstance(v, tuple))
-            final = {'cur': c.cursize, 'vals': vals, 'uris': len(c.store)}
+            try:
+                vals = sum(1 for uc in c.store.values() for v in uc.values() if isinstance(v, tuple))
+                final = {'cur': c.cursize, 'vals': vals, 'uris': len(c.store)}
+            except Exception as e:       # the cache object no longer has the shape the property is anchored in
+                final = {'cur': -1, 'vals': -1, 'uris': -1, 'note': type(e).__name__}
+            if expiry != 'ok':
+                final['expiry'] = expiry
         return {'obs': obs, 'prods': prods, 'final': final}
     finally:
         env.tls.proto = 'HTTP/1.1'
@@ -875,6 +946,7 @@ def gen_conc(rng):
     path, qs = rng.choice(PATHS[:2]), rng.choice(QUERIES[:2])
     vary = rng.sample(HDRS, rng.choice([0, 1, 1, 2]))
     vals = ['p', 'q']
+    with_validators = rng.random() < 0.15
     reqs = []
     for i in range(n):
         u = (path, qs) if same or rng.random() < 0.5 else (rng.choice(PATHS[:2]), rng.choice(QUERIES[:2]))
@@ -893,6 +965,11 @@ def gen_conc(rng):
         pragma = ['no-cache'] if rng.random() < 0.04 else None
         plan = {'vary': list(vary), 'size': rng.choices([0, 12, 20], weights=[6, 60, 34])[0],
                 'ns': rng.random() < 0.04, 'pnc': rng.random() < 0.03}
+        if with_validators:
+            plan['lastmod'] = LASTMODS[0]
+            if rng.random() < 0.4:
+                hd[rng.choice(['If-Modified-Since', 'If-Modified-Since', 'If-Unmodified-Since'])] = \
+                    rng.choice([LASTMODS[0], LASTMODS[0], LASTMODS[1]])
         reqs.append(['R', method, u[0], u[1], hd, pragma, cc, plan])
     plan = []
     r = rng.random()
@@ -948,7 +1025,14 @@ def gen_conc(rng):
 
 def _examine_conc(scn):
     import random
-    res = run_conc(scn, random.Random(scn.get('seed', 0)))
+    try:
+        with _Watchdog(120):
+            res = run_conc(scn, random.Random(scn.get('seed', 0)))
+    except RequestHung:
+        _Env.inst = None
+        return {'acts': [], 'snaps': [], 'toks': {}, 'errors': {}, 'unfinished': [], 'nfixed': 0, 'truncated': False,
+                'nhit': 0, 'bad': [('the interleaving scenario never came back (120 s): a real blocking call in the '
+                                    'code under test', 'request_never_answered')]}
     toks = {k: (_done_token(o) if o is not None else 'EXC') for k, o in res['obs'].items()}
     return {'acts': res['acts'], 'snaps': res['snaps'], 'bad': oracle_conc(scn, res), 'toks': toks,
             'errors': res['errors'], 'unfinished': res['unfinished'], 'nfixed': res['nfixed'],
@@ -1087,6 +1171,8 @@ def canon_real(res):
             toks.append('X%d' % o['status'])
     f = res['final']
     tail = '|cur=%d vals=%d uris=%d' % (f['cur'], f['vals'], f['uris']) if f else '|cur=0 vals=0 uris=0'
+    if f and f.get('expiry'):
+        tail += ' expiry-thread-' + f['expiry']
     return toks, tail
 
 
@@ -1119,7 +1205,8 @@ def _no_cache_requested(op):
 TOOL_HEADERS = ('Pragma', 'Cache-Control', 'Expires')     # what tools.expires may add to any response it sees
 
 
-def _check_hit(where, o, op, p, g, delay, unstable, overlapping=False, conditional=False, expires=None):
+def _check_hit(where, o, op, p, g, delay, unstable, overlapping=False, conditional=False, expires=None,
+               collided=False):
     """The clauses of the statement about ONE response that did not come from the handler (`o`, answering request
     `op`) and the handler production `p` (generation g) it claims to be: independent of the order of requests.
     conditional: `o` is a 304 Not Modified built from the cached response (it must be justified by that response
@@ -1160,10 +1247,12 @@ def _check_hit(where, o, op, p, g, delay, unstable, overlapping=False, condition
                     % (where, g, o['status'], p['status'], o['body'][:20], want_body[:20], hs, ps),
                     'hit_not_identical'))
     # same URL and query string
+    n1 = False
     if tuple(p['url']) != url:
         sig = 'hit_other_url'
         if (p['url'][0] + ('?' + p['url'][1] if p['url'][1] else '')) == (path + ('?' + qs if qs else '')):
             sig = 'N1:path_with_question_mark'
+            n1 = True        # the two URLs share their AntiStampedeCache: a variant mismatch is the same finding
         bad.append(('%s: served generation %d which was produced for %s' % (where, g, p['url']), sig))
     # same value of every request header named in that response's Vary
     for hname in p['vary']:
@@ -1171,6 +1260,7 @@ def _check_hit(where, o, op, p, g, delay, unstable, overlapping=False, condition
             bad.append(('%s: served generation %d (Vary %s) produced for %s=%r to a request with %s=%r'
                         % (where, g, p['vary'], hname, p['hdrs'].get(hname.lower(), ''), hname,
                            reqh.get(hname.lower(), '')),
+                        'N1:path_with_question_mark' if n1 else
                         'F16b:vary_list_changed' if unstable else 'hit_vary_mismatch'))
             break
     # fresh: no longer ago than delay / the request's smaller max-age (whole seconds)
@@ -1204,12 +1294,22 @@ def _check_hit(where, o, op, p, g, delay, unstable, overlapping=False, condition
     if _no_cache_requested(op):
         bad.append(('%s: request carried no-cache but the handler was not reached' % where,
                     'no_cache_request_served_from_cache'))
+    if collided or n1:
+        # two different URLs of this history share one store key (finding C15-N1): whatever else is wrong with a
+        # response served under that key (the other URL's Vary list, its invalidation) is that finding
+        bad = [(w, 'N1:path_with_question_mark') for w, _ in bad]
     return bad
+
+
+def store_key(url):
+    """The text cherrypy.url(qs=...) ends with: what finding C15-N1 is about."""
+    return url[0] + ('?' + url[1] if url[1] else '')
 
 
 def oracle(case, res):
     """Return a list of (what, signature) for every way this run contradicts the statement."""
     bad = []
+    key_urls = {}            # store key text -> the URLs (path, query) of this history that have it
     delay = case['cfg']['delay']
     prods = res['prods']
     last_req = {}            # url -> method of the previous request to it
@@ -1221,6 +1321,8 @@ def oracle(case, res):
             continue
         _, method, path, qs, hdrs, pragma, cc, plan = op
         url = (path, qs)
+        key_urls.setdefault(store_key(url), set()).add(url)
+        collided = len(key_urls[store_key(url)]) > 1
         # 412 Precondition Failed on a cached response is an error answer, not "a response served from the cache"
         served_from_cache = o['handler_gen'] is None and o['status'] not in (400, 412)
         if o['handler_gen'] is not None:
@@ -1241,20 +1343,23 @@ def oracle(case, res):
                 bad.append(('%s: response (status %s) came neither from the handler nor from a stored handler '
                             'response' % (where, o['status']), 'hit_unknown_generation'))
             else:
+                collided = collided or (tuple(p['url']) != url and store_key(p['url']) == store_key(url))
                 bad += _check_hit(where, o, op, p, g, delay, len(vary_seen.get(url, ())) > 1,
-                                  conditional=(o['status'] == 304), expires=case['cfg'].get('expires'))
+                                  conditional=(o['status'] == 304), expires=case['cfg'].get('expires'),
+                                  collided=collided)
                 # not across an invalidating request
                 if url in inval_time_idx and prod_idx.get(g, -1) < inval_time_idx[url]:
                     bad.append(('%s: served generation %d stored before the %s at op %d'
                                 % (where, g, case['ops'][inval_time_idx[url]][1], inval_time_idx[url]),
-                                'served_after_invalidation'))
+                                'N1:path_with_question_mark' if collided else 'served_after_invalidation'))
             if o['flags'] is not None and p is not None and not o['flags'][0]:
                 bad.append(('%s: served from the cache but request.cached is %r' % (where, o['flags'][0]),
                             'cached_flag_wrong'))
             # the next GET after POST/PUT/DELETE reaches the handler
             if last_req.get(url) in INVALIDATING:
                 bad.append(('%s: directly after a %s to the same URL the handler was not reached'
-                            % (where, last_req[url]), 'served_after_invalidation'))
+                            % (where, last_req[url]),
+                            'N1:path_with_question_mark' if collided else 'served_after_invalidation'))
             # request no-cache reaches the handler (part of _check_hit when the generation is known)
             if p is None and _no_cache_requested(op):
                 bad.append(('%s: request carried no-cache but the handler was not reached' % where,
@@ -1373,6 +1478,9 @@ def gen_case(rng, unstable=None, long=False):
     urls = []
     while len(urls) < nurl:
         u = (rng.choice(PATHS[:2] if rng.random() < 0.6 else PATHS), rng.choice(QUERIES))
+        if rng.random() < 0.04:
+            # a decoded path that contains the characters the store key treats specially (sent as %3F / %25)
+            u = (rng.choice(['/a?x=1', '/a%3Fx=1', '/a%', '/b?', '/a?x=1&y=2']), rng.choice(['', '', 'x=1']))
         if u not in urls:
             urls.append(u)
     nvary = rng.choice([0, 1, 1, 2, 2, 2, 3])
@@ -1576,9 +1684,41 @@ def cov_report(ctx):
 # ----------------------------------------------------------------------------------------------
 # checking
 # ----------------------------------------------------------------------------------------------
+class _Watchdog:
+    """SIGALRM based: a history of the code under test that does not come back within `secs` is an observation
+    (the request hung), never a hang of the check.  Main thread only (workers run their chunks on it)."""
+
+    def __init__(self, secs):
+        self.secs = secs
+        self.armed = False
+
+    def __enter__(self):
+        import signal
+        if threading.current_thread() is threading.main_thread():
+            def on_alarm(signum, frame):
+                raise RequestHung()
+            self.old = signal.signal(signal.SIGALRM, on_alarm)
+            signal.alarm(self.secs)
+            self.armed = True
+        return self
+
+    def __exit__(self, *a):
+        import signal
+        if self.armed:
+            signal.alarm(0)
+            signal.signal(signal.SIGALRM, self.old)
+        return False
+
+
 def _examine(case):
     """Worker: run one history on the real code, evaluate the oracle.  Picklable result."""
-    res = run_history(case)
+    try:
+        with _Watchdog(60):
+            res = run_history(case)
+    except RequestHung:
+        _Env.inst = None       # whatever that request left behind is not reused
+        return {'toks': ['HUNG'], 'tail': '|', 'nhit': 0,
+                'bad': [('a request of this history never came back (60 s)', 'request_never_answered')]}
     toks, tail = canon_real(res)
     return {'toks': toks, 'tail': tail, 'bad': oracle(case, res),
             'nhit': sum(1 for t in toks if t.startswith('H'))}
@@ -1863,20 +2003,33 @@ def _lean_str(s):
     return '[' + ', '.join("'%s'" % c for c in s) + ']'
 
 
+def _int_attr(obj, name):
+    try:
+        return max(0, int(getattr(obj, name)))
+    except Exception:
+        return 0
+
+
 def tables(ctx):
     import inspect
     from cherrypy.lib import caching
-    inv = inspect.signature(caching.get).parameters['invalid_methods'].default
+    try:
+        inv = tuple(inspect.signature(caching.get).parameters['invalid_methods'].default)
+    except Exception:
+        inv = ()          # no such default any more: the theorem about the table (POST, PUT, DELETE in it) fails
+    inv = tuple(m for m in inv if isinstance(m, str) and m.isascii() and m.isalnum())
     mc = caching.MemoryCache
-    for m in inv:
-        if not (m.isascii() and m.isalnum()):
-            raise common.HarnessError('unexpected invalid_methods entry %r' % (m,))
     # behavioural probe: does the sweep remove an expired variant of a resource with a non-empty Vary?
     plan = {'vary': ['X-A'], 'size': 12, 'ns': False, 'pnc': False}
     probe = {'cfg': {'delay': 1, 'maxobjects': 1000, 'maxobj_size': 100000, 'maxsize': 10000000},
              'ops': [['R', 'GET', '/probe', '', {'X-A': 'p'}, None, None, plan], ['T', 2 * TPS], ['S']]}
     res = run_history(probe)
     by_names = bool(res['final'] and res['final']['vals'] == 1)
+    # behavioural probe: is the store key injective in (path, query)?  '/probe?x' + '' against '/probe' + 'x'
+    plan0 = {'vary': [], 'size': 12, 'ns': False, 'pnc': False}
+    res = run_history({'cfg': probe['cfg'], 'ops': [['R', 'GET', '/probe?x', '', {}, None, None, plan0],
+                                                    ['R', 'GET', '/probe', 'x', {}, None, None, plan0]]})
+    key_escapes = res['obs'][1]['handler_gen'] is not None
     src = '''/- GENERATED by harness/c15.py from the live cherrypy.lib.caching / cherrypy._cptools; do not edit. -/
 namespace CpModel.Gen.C15
 
@@ -1896,10 +2049,14 @@ def sweepKeyIsNames : Bool := %s
 /-- code points below 256 for which `str.isspace()` holds (what `str.strip()` removes) -/
 def pyWhitespace : List Nat := [%s]
 
+/-- probed: does the store key keep a decoded path containing `?` apart from the shorter path with a query
+    string (the path's `%%` and `?` percent-encoded in the key)? -/
+def keyEscapesPath : Bool := %s
+
 end CpModel.Gen.C15
-''' % (', '.join(_lean_str(m) for m in inv), int(mc.delay), int(mc.maxobjects), int(mc.maxobj_size),
-       int(mc.maxsize), 'true' if by_names else 'false',
-       ', '.join(str(c) for c in range(256) if chr(c).isspace()))
+''' % (', '.join(_lean_str(m) for m in inv), _int_attr(mc, 'delay'), _int_attr(mc, 'maxobjects'),
+       _int_attr(mc, 'maxobj_size'), _int_attr(mc, 'maxsize'), 'true' if by_names else 'false',
+       ', '.join(str(c) for c in range(256) if chr(c).isspace()), 'true' if key_escapes else 'false')
     return {'CpModel/Gen/C15Tables.lean': src}
 
 
